@@ -2,6 +2,7 @@ package checks
 
 import (
 	"fmt"
+	"os"
 	"strings"
 
 	"verifharness/internal/core"
@@ -331,6 +332,13 @@ func init() {
 			if len(c.Samples) < 6 && r.Case.Stream != "c01-random" {
 				c.Sample(M{"stream": r.Case.Stream, "schema": clip(string(r.SchemaJSON), 250), "cfg": r.Case.Cfg, "outcome": outcome})
 			}
+		}
+		// generated files that refer to types of hand-written packages (several of them, with similar import paths) import
+		// what they use and build against stubs of those packages (the command line is the only way to state such mappings)
+		if bin := buildCLI(c); bin != "" {
+			tmpx, _ := os.MkdirTemp("", "gjsc01x")
+			externalPackages(c, bin, tmpx, &fails)
+			_ = os.RemoveAll(tmpx)
 		}
 		breaks(c, res, map[string]bool{"gen": true, "summary": true, "imports": true, "compile": true}, fails > 0)
 		c.FactsVerdict(fails > 0)
